@@ -38,6 +38,22 @@ SRC = ("TAG = {v}\nCALLS = []\n{blank}\n\ndef f(x):\n    CALLS.append(('f', x))\
        "lam = lambda x: ('l', {v}, x, CALLS.append(('l', x)))\n")
 
 
+# second layout of the module-level function: every version's source is the previous version's source plus one more
+# line at the END of the body (the value is a list that the `finally` clause keeps editing after `return` has
+# evaluated it), so that an older recorded source is a strict prefix of the newer one
+SRC_APPEND = ("TAG = {v}\nCALLS = []\n{blank}\n\ndef f(x):\n    CALLS.append(('f', x))\n    r = ['f', 1, x]\n    try:\n        return r\n"
+              "    finally:\n        pass\n{more}\n\n"
+              "def outer():\n    def g(x):\n        CALLS.append(('g', x))\n        return ('g', {v}, x)\n    return g\n\n\n"
+              "lam = lambda x: ('l', {v}, x, CALLS.append(('l', x)))\n")
+_STYLE = {"append": False}
+
+
+def _src(v, shift):
+    if _STYLE["append"]:
+        return SRC_APPEND.format(v=v, blank="\n" * shift, more="".join("        r[1] = %d\n" % j for j in range(2, v + 1)))
+    return SRC.format(v=v, blank="\n" * shift)
+
+
 def gen_case(rng):
     only_newest = rng.random() < 0.6
     ver = 0
@@ -74,7 +90,16 @@ def gen_case(rng):
                 ops.append(["fcall", rng.choice(KINDS), "cur", rng.randint(1, 2)])   # MemorizedFunc.call: forced execution, result stored
             elif r < 0.44:
                 ops.append(["readonly", rng.random() < 0.6])
-            elif r < 0.46:
+            elif r < 0.455:
+                ops.append(["pkeep", "f"])              # a copy of the wrapper (pickle round trip) is made now and used later
+            elif r < 0.475:
+                ver += 1
+                ops.append(["fswap", "f", ver])        # a code object nobody else references: the one it replaces may be freed
+            elif r < 0.49:
+                ops.append(["ecall", "f", "cur", rng.randint(1, 2)])
+            elif r < 0.50:
+                ops.append(["kcall", "f", "cur", rng.randint(1, 2)])      # Memory.eval: the wrapper does not outlive the call
+            elif r < 0.52:
                 ops.append(["eio"])        # fault: the next read of a recorded source fails once (EIO / ESTALE), the retry succeeds                     # fault: the store refuses writes / deletions
             else:
                 kind = rng.choice(KINDS)
@@ -95,16 +120,29 @@ def gen_case(rng):
                     ops.append(["swap", "f", ver])
                 if rng.random() < 0.3:
                     ops.append(["readonly", True])
-                ops.append([rng.choice(["call", "call", "pcall"]), "f", "cur", rng.choice([x, x, 3 - x])])
+                ops.append([rng.choice(["call", "call", "pcall", "kcall"]), "f", "cur", rng.choice([x, x, 3 - x])])
                 if rng.random() < 0.5:
                     ops.append(["call", "f", "cur", x])
+                if rng.random() < 0.25:
+                    ops.append(["pkeep", "f"])
+        elif rng.random() < 0.1:
+            # focused scenario: fresh code objects come and go while the function is only used through short-lived wrappers
+            x = rng.randint(1, 2)
+            ops = ops[:1] + [["ecall", "f", "cur", x]]
+            for _ in range(rng.randint(3, 7)):
+                ver += 1
+                ops.append(["fswap", "f", ver])
+                if rng.random() < 0.6:
+                    ops.append([rng.choice(["ecall", "ecall", "call"]), "f", "cur", rng.choice([x, x, 3 - x])])
         sessions.append(ops)
     case = {"sessions": sessions}
+    if rng.random() < 0.2:
+        case["append_style"] = True      # edits of f only ever append lines at the end of its body
     if rng.random() < 0.15:
         # the same definitions are also cached at a second store location by the same processes
         for ops in sessions:
             for op in ops:
-                if op[0] in ("call", "pcall", "fcall"):
+                if op[0] in ("call", "pcall", "fcall", "ecall", "kcall"):
                     op.append(rng.choice([0, 1]))
     return case
 
@@ -117,7 +155,7 @@ def plan(tier, seed):
 def _write(root, v, shift, name="vm"):
     d = os.path.join(root, "src"); os.makedirs(d, exist_ok=True)
     with open(os.path.join(d, name + ".py"), "w") as fh:
-        fh.write(SRC.format(v=v, blank="\n" * shift))
+        fh.write(_src(v, shift))
 
 
 def session(root, ops, si=0):
@@ -135,6 +173,7 @@ def session(root, ops, si=0):
     mem = Memory(os.path.join(root, "cache"), verbose=0)
     mem_b = Memory(os.path.join(root, "cache_b"), verbose=0)
     wrap_b = {}
+    kept = {}
     mod = None
     live = {}        # (kind, version|'cur') -> [version, cached, raw function]
     out = []
@@ -154,7 +193,7 @@ def session(root, ops, si=0):
         elif not flag and ro["saved"]:
             (sb.FileSystemStoreBackend._open_item, sb.FileSystemStoreBackend._move_item, sb.shutil, sb.mkdirp, sb.rm_subdirs) = ro["saved"]
     for i, op in enumerate(ops):
-        if op[0] in ("define", "load", "edef", "swap") and ro["on"]:
+        if op[0] in ("define", "load", "edef", "swap", "fswap") and ro["on"]:
             set_ro(False)          # (re)definitions construct wrappers: construction is not what the fault is about
         elif ro["on"]:
             set_ro(True)
@@ -185,6 +224,19 @@ def session(root, ops, si=0):
                 other = importlib.import_module("vm_swap%d" % op[2])
                 codes[op[2]] = (op[2], other.f.__code__)
             ent[0], ent[2].__code__ = codes[op[2]]
+        elif op[0] == "fswap":
+            ent = live.get((op[1], "cur"))
+            if ent is None:
+                continue
+            fpath = os.path.join(d, "vm_fs%d.py" % op[2])
+            text = _src(op[2], 0)
+            with open(fpath, "w") as fh:
+                fh.write(text)
+            top = compile(text, fpath, "exec")
+            fresh = [c for c in top.co_consts if getattr(c, "co_name", None) == "f"][0]
+            del top
+            ent[0] = op[2]; ent[2].__code__ = fresh
+            del fresh
         elif op[0] == "edef":
             # a function whose source cannot be retrieved (exec of a string, as `python -c` / interactive definitions):
             # successive versions compile to the same bytecode and differ only in a constant
@@ -236,7 +288,12 @@ def session(root, ops, si=0):
             elif not op[1] and ro["on"]:
                 ro["on"] = False
                 set_ro(False)
-        elif op[0] in ("call", "pcall", "fcall"):
+        elif op[0] == "pkeep":
+            ent = live.get((op[1], "cur"))
+            if ent is not None:
+                import pickle
+                kept[id(ent[2])] = pickle.loads(pickle.dumps(ent[1]))
+        elif op[0] in ("call", "pcall", "fcall", "ecall", "kcall"):
             ent = live.get((op[1], op[2]))
             if ent is None:
                 continue
@@ -257,7 +314,12 @@ def session(root, ops, si=0):
                 if op[0] == "pcall":
                     import pickle
                     fcall = pickle.loads(pickle.dumps(fcall))       # what dispatching the wrapper to a worker does
-                r = fcall(op[3]) if op[0] != "fcall" else fcall.call(op[3])[0]
+                if op[0] == "kcall" and not loc and id(ent[2]) in kept:
+                    fcall = kept[id(ent[2])]
+                if op[0] == "ecall":
+                    r = (mem_b if loc else mem).eval(ent[2], op[3])
+                else:
+                    r = fcall(op[3]) if op[0] != "fcall" else fcall.call(op[3])[0]
             except BaseException as e:  # noqa
                 r = ("EXC", type(e).__name__, str(e)[:100])
             n1 = len(mod.CALLS) + sum(len(getattr(sys.modules.get(m), "CALLS", ())) for m in list(sys.modules) if m.startswith("vm_swap"))
@@ -277,6 +339,7 @@ def run_case(case):
         ro_hist = [False]
         stats = {"version_changes_then_call": 0, "restarts": 0, "reloads": 0, "older_calls": 0}
         changed = {k: False for k in KINDS}
+        _STYLE["append"] = bool(case.get("append_style"))
         for si, ops in enumerate(case["sessions"]):
             kind, res = fork_run(lambda: session(root, ops, si), 60.0)
             if kind != "ok":
